@@ -136,9 +136,11 @@ func (e *Engine) verifyFunc(ct *Contract) (res *FuncVC) {
 	}
 	entry := st.clone()
 	env := c.specEnv(fr, st, entry, nil)
+	env.pos = true
 	for _, cl := range ct.byKind("requires") {
 		c.assume("true", c.specBool(env, cl.Expr))
 	}
+	env.pos = false
 	preLen := len(c.pre)
 	rst, rvals := c.execBody(fr, st, args, freevars)
 	// results for model extraction
